@@ -86,7 +86,7 @@ enum RefErr {
 }
 
 const STRUCTS: &[(&str, &[(&str, u8)])] = &[
-    ("Pt", &[("px", 0), ("py", 0)]),
+    ("Pt", &[("px", 0), ("py", 0), ("pz", 0)]),
     ("Rec", &[("label", 2), ("count", 0), ("flag", 1)]),
     ("Pair", &[("fst", 0), ("snd", 2)]),
 ];
@@ -637,8 +637,14 @@ impl GenEnv {
                     let k = *k;
                     s.ensure_struct(k);
                     let mut fields: Vec<(String, X)> = STRUCTS[k].1.iter().map(|(n, t)| (n.to_string(), s.genx(&field_ty(*t), locals, r, 0))).collect();
-                    if r.below(2) == 0 && fields.len() >= 2 {
+                    // any permutation of the fields: a rotation, optionally reversed
+                    let rot = r.below(fields.len());
+                    fields.rotate_left(rot);
+                    let rev = r.below(2) == 0 && fields.len() >= 2;
+                    if rev {
                         fields.reverse();
+                    }
+                    if rot > 0 || rev {
                         s.struct_out_of_order = true;
                     }
                     X::Struct(k, fields)
@@ -741,7 +747,7 @@ impl GenEnv {
                 T::Num => match r.below(4) {
                     0 => {
                         self.ensure_struct(0);
-                        X::Field(Box::new(self.genx(&T::Struct(0), locals, r, d)), ["px", "py"][r.below(2)].to_string())
+                        X::Field(Box::new(self.genx(&T::Struct(0), locals, r, d)), ["px", "py", "pz"][r.below(3)].to_string())
                     }
                     1 => X::Call("len".into(), vec![self.genx(&T::List(Box::new(T::Num)), locals, r, d)]),
                     2 => X::Call("head".into(), vec![X::Call("cons".into(), vec![self.genx(&T::Num, locals, r, d), self.genx(&T::List(Box::new(T::Num)), locals, r, d)])]),
@@ -1075,7 +1081,7 @@ fn run(cfg: &Cfg) -> Report {
         cfg,
         "proptest programs of 4-16 instructions generated as a typed AST: integer arithmetic, booleans, comparisons, strings with interpolation of numbers/booleans/strings, structs (fields given in any order, field access), lists (cons, cons_end, reverse, concat, head, tail, len, map with user functions), variables with top-level shadowing (also with a change of type), functions with 0-3 annotated parameters (function-valued parameters, parameters that shadow globals and unit names), where-clauses that depend on parameters and earlier where-variables, bounded recursion, redefinition of functions, function values bound to variables and called through them, reverse application. The AST is rendered to source and evaluated by numbat as one input, and evaluated directly by a reference evaluator (static scoping: a name in a function body means the binding visible where the function was defined; arguments, fields, list elements and string parts are evaluated left to right and keep source order). Oracle: same error kind (EmptyList) or same printed lines, same raw value of every global (innermost binding) and same final result. non-trivial = a call with >= 2 arguments, a struct with fields out of order or a nested conditional, together with a shadowed name; distinct = program text",
     );
-    let cases = cfg.tier.pick(500u32, 25000u32);
+    let cases = cfg.tier.pick(2000u32, 25000u32);
     rep.absorb(run_proptest(
         cfg,
         "programs",
